@@ -354,6 +354,54 @@ class CoordPayload():
         return other // self.payload
 
 #
+# Logical operations
+#
+    def __and__(self, other):
+        """__and__"""
+
+        if isinstance(other, CoordPayload):
+            ans = self.payload & other.payload
+        else:
+            ans = self.payload & other
+
+        return ans
+
+    def __rand__(self, other):
+        """__rand__"""
+
+        return other & self.payload
+
+    def __or__(self, other):
+        """__or__"""
+
+        if isinstance(other, CoordPayload):
+            ans = self.payload | other.payload
+        else:
+            ans = self.payload | other
+
+        return ans
+
+    def __ror__(self, other):
+        """__ror__"""
+
+        return other | self.payload
+
+    def __lshift__(self, other):
+        """__lshift__"""
+
+        if isinstance(other, CoordPayload):
+            ans = self.payload << other.payload
+        else:
+            ans = self.payload << other
+
+        return ans
+
+    def __rlshift__(self, other):
+        """__rlshift__"""
+
+        return other << self.payload
+
+#
 # Comparison operations
 #
 
